@@ -46,6 +46,35 @@ Definition delete (r : reg) (n : bytes) : reg * bool :=
   | None => (r, false)
   end.
 
+(* ensurePipe(p, changeOk): the same three rounds; with changeOk (only ensurePipesAtStart passes true) a pipe that
+   exists with other conditions is deleted and the round is repeated *)
+Fixpoint ensure_c_go (change_ok : bool) (fuel : nat) (r : reg) (p : pipe) (valid : bool) : reg * option pipe :=
+  match fuel with
+  | O => (r, None)
+  | S f =>
+      match lookup r (p_name p) with
+      | Some p1 =>
+          if negb (bytes_eqb (p_where p1) (p_where p)) || negb (bytes_eqb (p_from p1) (p_from p))
+          then (if change_ok then ensure_c_go change_ok f (fst (delete r (p_name p))) p valid else (r, None))
+          else (r, Some p1)
+      | None => ensure_c_go change_ok f (fst (create r p valid)) p valid
+      end
+  end.
+Definition ensure_c (change_ok : bool) (r : reg) (p : pipe) (valid : bool) : reg * option pipe :=
+  ensure_c_go change_ok 3 r p valid.
+
+(* ensurePipesAtStart: the pipes of the configuration, in order, each with changeOk = true; the first failure ends
+   the start (Init returns the error, Shutdown saves what the registry holds by then) *)
+Fixpoint ensure_at_start (r : reg) (cfg : list (pipe * bool)) : reg * bool :=
+  match cfg with
+  | [] => (r, true)
+  | (p, v) :: tl =>
+      match ensure_c true r p v with
+      | (r', Some _) => ensure_at_start r' tl
+      | (r', None) => (r', false)
+      end
+  end.
+
 (* GetPipes: res is filled by insertion at sort.Search(cnt, res[idx].Name >= pn), cnt = number placed so far.
    [ord] is the order in which `range s.ppipes` meets the entries. *)
 Definition insert_sorted (res : list pipe) (p : pipe) : list pipe :=
@@ -55,12 +84,15 @@ Definition get_pipes (ord : list pipe) : list pipe := fold_left insert_sorted or
 
 (* cmdShowPipes: (total, shown count of the header, names listed); None = error (negative offset) *)
 Definition max_int32 : Z := 2147483647.
+(* Go's int is 64 bits wide here: lim+offs wraps; lim and offs themselves are int64 values of the parser *)
+Definition wrap_int (z : Z) : Z := ((z + 2 ^ 63) mod 2 ^ 64 - 2 ^ 63)%Z.
 Definition show_pipes (stms : list pipe) (limit offset : Z) : option (Z * Z * list bytes) :=
   let lim0 := if Z.eqb limit 0 then max_int32 else limit in
   if Z.ltb offset 0 then None else
   let len := Z.of_nat (length stms) in
-  let lim := (if Z.ltb len (lim0 + offset) then (if Z.ltb (len - offset) 0 then 0 else len - offset) else lim0)%Z in
-  Some (len, lim, names (firstn (Z.to_nat lim) (skipn (Z.to_nat offset) stms))).
+  let lim := (if Z.ltb len (wrap_int (lim0 + offset)) then (if Z.ltb (len - offset) 0 then 0 else len - offset) else lim0)%Z in
+  (* the loop `for i := offs; i < len(stms) && lim > 0`: at most len names whatever lim and offs are *)
+  Some (len, lim, names (firstn (Z.to_nat (Z.min lim len)) (skipn (Z.to_nat (Z.min offset len)) stms))).
 
 (* cmdDescribePipe: stored From, Where and the destination partition's tag line *)
 Definition dest_prefix : bytes := (* "logrange.pipe=" *)
@@ -83,7 +115,8 @@ Inductive op :=
 | ODelete (n : bytes)
 | OList (limit offset : Z)
 | ODescribe (n : bytes)
-| ORestart.
+| ORestart
+| ORestartCfg (cfg : list (pipe * bool)).   (* restart with PipesConfig.EnsureAtStart = cfg *)
 
 Inductive obs :=
 | RBool (b : bool)                       (* create / delete succeeded *)
@@ -101,6 +134,7 @@ Definition step (perm : reg -> reg) (r : reg) (o : op) : reg * obs :=
   | OList l o => (r, RList (show_pipes (get_pipes (perm r)) l o))
   | ODescribe n => (r, RDescribe (describe r n))
   | ORestart => (load (save (perm r)), RUnit)
+  | ORestartCfg cfg => let '(r', ok) := ensure_at_start (load (save (perm r))) cfg in (r', RBool ok)
   end.
 
 Fixpoint run (perm : reg -> reg) (r : reg) (ops : list op) : reg * list obs :=
@@ -131,3 +165,32 @@ Definition cstep (s : cstate) (a : nat) : cstate :=
   end.
 Definition crun (sched : list nat) (s : cstate) : cstate := fold_left cstep sched s.
 Definition count_pc (v : nat) (s : cstate) : nat := length (filter (Nat.eqb v) (c_pc s)).
+
+(* ---------------- K concurrent ensurePipe(p, changeOk = false) calls, one new name, ONE definition ----------------
+   Every call runs the loop of ensurePipe: GetPipe (under the lock); CreatePipe = check under the lock, compile outside,
+   check + insert under the lock; an error of CreatePipe is logged and the loop goes on ([retry] = true, the code) or is
+   returned at once ([retry] = false, for the refutation only).  Rounds are counted up to 3. *)
+Inductive epc := EGet (round : nat) | ECheck (round : nat) | EInsert (round : nat) | EOk | EFail.
+Record estate := { e_present : bool; e_pc : list epc }.
+Definition estep_pc (retry : bool) (present : bool) (pc : epc) : bool * epc :=
+  match pc with
+  | EGet r => if Nat.leb 3 r then (present, EFail) else if present then (present, EOk) else (present, ECheck r)
+  | ECheck r => if present then (present, if retry then EGet (S r) else EFail) else (present, EInsert r)
+  | EInsert r => if present then (present, if retry then EGet (S r) else EFail) else (true, EGet (S r))
+  | EOk => (present, EOk)
+  | EFail => (present, EFail)
+  end.
+Definition estep (retry : bool) (s : estate) (a : nat) : estate :=
+  match nth_error (e_pc s) a with
+  | Some pc => let '(pr, pc') := estep_pc retry (e_present s) pc in
+               {| e_present := pr; e_pc := firstn a (e_pc s) ++ pc' :: skipn (S a) (e_pc s) |}
+  | None => s
+  end.
+Definition erun (retry : bool) (sched : list nat) (s : estate) : estate := fold_left (estep retry) sched s.
+Definition einit (K : nat) : estate := {| e_present := false; e_pc := repeat (EGet 0) K |}.
+Definition epc_is_ok (pc : epc) : bool := match pc with EOk => true | _ => false end.
+Definition epc_is_fail (pc : epc) : bool := match pc with EFail => true | _ => false end.
+Definition epc_done (pc : epc) : bool := epc_is_ok pc || epc_is_fail pc.
+Definition count_ok (s : estate) : nat := length (filter epc_is_ok (e_pc s)).
+(* a complete fair schedule: 12 rounds of everybody (a call needs at most 7 own steps) *)
+Definition efull_sched (K : nat) : list nat := concat (repeat (seq 0 K) 12).
